@@ -7,3 +7,7 @@ from sa import alpha
 ref = alpha.build_reference(sys.argv[1] if len(sys.argv) > 1 else "/repo")
 json.dump(ref, open(os.path.join(os.path.dirname(os.path.abspath(__file__)), "..", "sa", "ref_locals.json"), "w"), indent=0, sort_keys=True)
 print(len(ref), "functions,", sum(len(v) for v in ref.values()), "locals")
+from sa import orient
+rc = orient.build_reference(sys.argv[1] if len(sys.argv) > 1 else "/repo")
+json.dump(rc, open(os.path.join(os.path.dirname(os.path.abspath(__file__)), "..", "sa", "ref_compares.json"), "w"), indent=0, sort_keys=True)
+print(len(rc), "functions,", sum(len(v) for v in rc.values()), "comparisons")
